@@ -70,6 +70,7 @@ LIST_OPS = ["after", "before", "between", "mask", "slice", "sorted", "append", "
 MAP_OPS = ["rate", "deepcopy_map", "write", "full_ln", "scroll_speed", "dominant_bpm", "pattern", "convert"]
 SV_OPS = ["sv_normalize"]
 COPY_OPS = {"deepcopy", "move_start_to", "move_end_to", "rate", "deepcopy_map", "convert", "full_ln", "hitsound_copy", "rate_mapset"}
+NEWFRAME_OPS = {"append", "sorted", "mask", "after", "before", "between"}
 QUERY_OPS = {"write", "dominant_bpm", "first_last", "write_mapset"}
 CONV = {"osu": ["OsuToQua", "OsuToSM", "OsuToBMS"], "qua": ["QuaToOsu", "QuaToSM", "QuaToBMS"], "bms": ["BMSToOsu", "BMSToQua", "BMSToSM"],
         "sm": ["SMToOsu", "SMToQua", "SMToBMS"], "o2j": ["O2JToOsu", "O2JToQua", "O2JToSM", "O2JToBMS"]}
@@ -101,6 +102,11 @@ def generate(rng, tier):
                 op = rng.choice(pool)
                 ops.append({"op": op, "seed": rng.randint(0, 10 ** 6)})
             cases.append({"game": game, "map": _sane_spec(rng, game), "map2": _sane_spec(rng, game), "ops": ops})
+        # degenerate arguments of the list operations (an appended list with no rows, a filter that keeps everything)
+        for _ in range(4):
+            cases.append({"game": game, "map": _sane_spec(rng, game), "map2": _sane_spec(rng, game),
+                          "ops": [{"op": rng.choice(["append", "append", "sorted", "mask"]), "seed": rng.randint(0, 10 ** 6), "degenerate": True}
+                                  for _ in range(3)]})
     return cases
 
 
@@ -244,7 +250,7 @@ def _shares(res, arg):
 
 
 # ------------------------------------------------------------------ operations
-def _plan(op, seed, game, m, m2, container):
+def _plan(op, seed, game, m, m2, container, degenerate=False):
     """-> (args, call, kind, funcs) or None when the operation does not apply to these inputs (nothing is called)
     call() -> list of results; kind in {'query','fresh'}; funcs = the reamber functions the call runs (as Python's own
     dispatch resolves them on these objects): the programs of the generated effect table the observation is compared with"""
@@ -273,6 +279,10 @@ def _plan(op, seed, game, m, m2, container):
     if op == "append":
         other = m2.objs[[k for k in m2.objs if type(m2.objs[k]) is type(lst)][0]]
         srt = r.random() < 0.5
+        if degenerate or r.random() < 0.35:
+            other = other[0:0]                      # nothing to add (a filter that matched nothing): still a new list
+            if degenerate:
+                srt = r.random() < 0.25
         return [lst, other], lambda: [lst.append(other, sort=srt)], "fresh", [L.append, L.sorted]
     if op in ("move_start_to", "move_end_to"):
         if not len(lst):
@@ -393,7 +403,7 @@ def execute(case):
         # snapshot everything that could be an argument
         universe = [m, m2] + ([container] if container is not None else [])
         before_all = [snap(u) for u in universe]
-        plan = _plan(op, o["seed"], game, m, m2, container)
+        plan = _plan(op, o["seed"], game, m, m2, container, o.get("degenerate", False))
         if plan is None:
             obs.append({"op": op, "nocall": True})       # does not apply to these inputs: nothing was called
             continue
@@ -442,6 +452,19 @@ def execute(case):
                         m = M.build_map(case["map"])
                         m2 = M.build_map(case["map2"])
                 aliases.append(al)
+            if not is_copy and op in NEWFRAME_OPS:
+                # sorted / append / boolean filters build a NEW frame (the mechanism the property names): a result that IS
+                # one of its arguments (same list object or same DataFrame object) shares all of its state with it
+                same = []
+                for res in results:
+                    hit = None
+                    for k, a in enumerate(args):
+                        if res is a or any(rf is af for rf in _frames(res, []) for af in _frames(a, [])):
+                            hit = k
+                            break
+                    same.append(hit)
+                if any(h is not None for h in same):
+                    is_copy, aliases = True, same
         obs.append({"op": op, "kind": kind, "nargs": len(args), "copy": is_copy, "changed": changed, "aliases": aliases,
                     "others_changed": others_changed, "ops": ops})
     return {"obs": obs}
